@@ -1,28 +1,32 @@
 import HeimdallModel.Model.Signer
 import HeimdallModel.Model.SignerConc
 /-!
-# From the facts extracted from `jwt_signer.go` / `entry.go` to the model (C16)
+# From the synchronisation events extracted from `jwt_signer.go` to the machine of `Model/SignerConc.lean` (C16)
 
-`Gen/Signer.lean` is regenerated from the current source on every run by `/verif/extract/signer`.  This file says how
-the raw facts are read (`abstractEv`, `canon`, `abstractClaimOp`) and what they have to be for the model of
-`Model/Signer.lean` and the machine of `Model/SignerConc.lean` to be the model of that source; the obligations
-themselves (`… = … := by decide`) are theorems of `Props/C16.lean`.
+`Gen/Signer.lean` is regenerated from the current source on every run by `/verif/extract/signer`: per method of
+`jwtSigner` the lock / unlock / deferred unlock events of its mutex, the reads and writes of its fields, control
+structure and returns, with calls of other methods of the signer inlined.  This file reads such an event list as a
+list of **critical sections** (`sections`): which guarded fields are accessed inside which read- or write-lock
+section.  That is all the proofs about the machine depend on, and it is insensitive to how the code around the
+sections is written (helpers, constants, early returns before the first lock, explicit or deferred unlock, order of
+the accesses inside a section).  Everything else C16 needs to know about the code — claim set, headers, key
+selection, algorithm per key size, public JWKs — is observed from the running code by the correspondence check.
+
+The obligations themselves (`… = … := by decide`) are theorems of `Props/C16.lean`.
 -/
 namespace Heimdall.SignerProtocol
 open Heimdall.Signer Heimdall.SignerConc
 
-/-! ## synchronisation events -/
-
 inductive AEv where
   | rlock | runlock | deferRUnlock | lock | unlock | deferUnlock
   | readJwk | readKey | readPub | writeJwk | writeKey | writePub
-  | ret | callLoad
+  | ret
+  | callLoad            -- label of the loader's step that parses the key store file, outside the lock
   | other (s : String)
 deriving DecidableEq, Repr
 
-/-- `none`: irrelevant for the protocol (control structure, reads of the configuration fields `path`, `password`,
-`keyID`, `iss`, which no method writes — any write to them shows up as `other`).  The written values are part of the
-event: the JWK and the key have to come from the same selected entry `kse`. -/
+/-- `none`: irrelevant for the protocol (control structure, the braces of an inlined method, reads of the configuration
+fields `path`, `password`, `keyID`, `iss`, which no method writes — a write to them shows up as `other`) -/
 def abstractEv (s : String) : Option AEv :=
   if s = "rlock mut" then some .rlock
   else if s = "runlock mut" then some .runlock
@@ -33,47 +37,91 @@ def abstractEv (s : String) : Option AEv :=
   else if s = "read jwk" then some .readJwk
   else if s = "read key" then some .readKey
   else if s = "read pubKeys" then some .readPub
-  else if s = "write jwk <- kse.JWK()" then some .writeJwk
-  else if s = "write key <- kse.PrivateKey" then some .writeKey
-  else if s = "write pubKeys <- keys" then some .writePub
+  else if s = "write jwk" then some .writeJwk
+  else if s = "write key" then some .writeKey
+  else if s = "write pubKeys" then some .writePub
   else if s = "return" ∨ s = "return nil" ∨ s = "return value" then some .ret
-  else if s = "call load" then some .callLoad
-  else if s = "if {" ∨ s = "}" ∨ s = "else {" ∨ s = "loop {" ∨ s = "switch {" ∨ s = "case {" then none
+  else if s = "if {" ∨ s = "}" ∨ s = "else {" ∨ s = "loop {" ∨ s = "switch {" ∨ s = "case {" ∨ s = "enter {" then none
   else if s = "read path" ∨ s = "read password" ∨ s = "read keyID" ∨ s = "read iss" then none
   else some (.other s)
 
 def abstract (evs : List String) : List AEv := evs.filterMap abstractEv
 
-/-- returns before the first lock operation end the call without touching the guarded fields -/
-def dropEarlyReturns : List AEv → List AEv
-  | .ret :: rest => dropEarlyReturns rest
-  | l => l
+def AEv.isAccess : AEv → Bool
+  | .readJwk | .readKey | .readPub | .writeJwk | .writeKey | .writePub => true
+  | _ => false
 
-/-- several exits after the critical section count as one -/
-def collapseReturns : List AEv → List AEv
-  | .ret :: .ret :: rest => collapseReturns (.ret :: rest)
-  | e :: rest => e :: collapseReturns rest
-  | [] => []
+def AEv.isWrite : AEv → Bool
+  | .writeJwk | .writeKey | .writePub => true
+  | _ => false
 
-def canon (evs : List String) : List AEv := collapseReturns (dropEarlyReturns (abstract evs))
+/-- a critical section: taken with the write lock?  which guarded accesses inside (canonical order, each once) -/
+abbrev Section := Bool × List AEv
+
+def allAccesses : List AEv := [.readJwk, .readKey, .readPub, .writeJwk, .writeKey, .writePub]
+
+def normAccesses (l : List AEv) : List AEv := allAccesses.filter (fun a => l.contains a)
+
+/-- lock state while reading an event list: not held, or held (write?, unlock deferred?) with the accesses so far -/
+structure LockState where
+  held : Option (Bool × Bool) := none
+  cur  : List AEv := []
+  done : List Section := []
+
+def LockState.close (st : LockState) (w : Bool) : LockState :=
+  { held := none, cur := [], done := st.done ++ [(w, normAccesses st.cur)] }
+
+/-- the critical sections of an event list; `none` when it is not well-formed: an access to a guarded field outside
+a section, a write inside a read section, lock operations that do not pair up, a return that leaves the lock held, a
+return inside a section with a deferred unlock that is not the end of the method, an unknown event -/
+def sectionsFrom : List AEv → LockState → Option (List Section)
+  | [], st =>
+    match st.held with
+    | none => some st.done
+    | some (w, true) => some (st.close w).done
+    | some (_, false) => none
+  | e :: rest, st =>
+    match e, st.held with
+    | .rlock, none => sectionsFrom rest { st with held := some (false, false) }
+    | .lock, none => sectionsFrom rest { st with held := some (true, false) }
+    | .runlock, some (false, false) => sectionsFrom rest (st.close false)
+    | .unlock, some (true, false) => sectionsFrom rest (st.close true)
+    | .deferRUnlock, some (false, false) => sectionsFrom rest { st with held := some (false, true) }
+    | .deferUnlock, some (true, false) => sectionsFrom rest { st with held := some (true, true) }
+    -- an unlock deferred by an inlined method runs where that method ends: the extractor has put it there
+    | .runlock, some (false, true) => sectionsFrom rest (st.close false)
+    | .unlock, some (true, true) => sectionsFrom rest (st.close true)
+    | .ret, none => sectionsFrom rest st
+    | .ret, some (w, true) => if rest.all (fun x => x = .ret) then some (st.close w).done else none
+    | .callLoad, _ => sectionsFrom rest st
+    | a, some (w, _) =>
+      if a.isAccess ∧ (a.isWrite → w = true) then sectionsFrom rest { st with cur := st.cur ++ [a] } else none
+    | _, none => none
+
+def sections (evs : List AEv) : Option (List Section) := sectionsFrom evs {}
 
 def lookupMethod (p : List (String × List String)) (m : String) : List String :=
   ((p.find? (·.1 = m)).map (·.2)).getD ["<missing method>"]
 
-def signProtocol : List AEv := [.rlock, .readJwk, .readKey, .runlock, .ret]
-def keysProtocol : List AEv := [.rlock, .deferRUnlock, .readPub, .ret]
-def hashProtocol : List AEv := [.rlock, .readJwk, .runlock, .ret]
-def certProtocol : List AEv := [.rlock, .deferRUnlock, .readJwk, .ret]
-def loadProtocol : List AEv := [.lock, .deferUnlock, .writeJwk, .writeKey, .writePub, .ret]
-def onChangedProtocol : List AEv := [.callLoad]
+def methodSections (p : List (String × List String)) (m : String) : Option (List Section) :=
+  sections (abstract (lookupMethod p m))
 
-def methodNames : List String := ["Hash", "Keys", "OnChanged", "Sign", "activeCertificateChain", "load"]
+/-- `Sign`: JWK and key are copied inside one read-lock section, nothing guarded is touched outside -/
+def signSections : List Section := [(false, [.readJwk, .readKey])]
+/-- `Keys` -/
+def keysSections : List Section := [(false, [.readPub])]
+/-- `Hash`, `activeCertificateChain` -/
+def jwkSections : List Section := [(false, [.readJwk])]
+/-- `load`, and `OnChanged`, which runs it: the three fields are replaced inside one write-lock section -/
+def loadSections : List Section := [(true, [.writeJwk, .writeKey, .writePub])]
 
-/-- every event of every method is one the abstraction knows -/
-def allRecognised (p : List (String × List String)) : Bool :=
-  p.all (fun m => m.2.all (fun e => match abstractEv e with
-    | some (.other _) => false
-    | _ => true))
+/-- every method — entry point or helper — is well-formed, and a section that writes at all replaces all three
+guarded fields -/
+def allMethodsSafe (p : List (String × List String)) : Bool :=
+  p.all (fun m => match sections (abstract m.2) with
+    | none => false
+    | some secs => secs.all (fun s => !s.2.any AEv.isWrite ||
+        (s.1 && [AEv.writeJwk, .writeKey, .writePub].all (fun a => s.2.contains a))))
 
 /-- the transitions of the machine with the event each performs -/
 def signerEdges : List (SPc × AEv × SPc) :=
@@ -85,92 +133,5 @@ def readerEdges : List (RPc × AEv × RPc) :=
 def loaderEdges : List (LPc × AEv × LPc) :=
   [(.idle, .ret, .failed), (.idle, .callLoad, .parsed), (.parsed, .lock, .wHeld), (.wHeld, .writeJwk, .wroteJwk),
    (.wroteJwk, .writeKey, .wroteKey), (.wroteKey, .writePub, .wrotePub), (.wrotePub, .unlock, .done)]
-
-/-- the source-level protocol the edges stand for: an explicit unlock before the exit (`Sign`, `Hash`) or a deferred
-one that runs at the exit (`Keys`, `activeCertificateChain`, `load`) -/
-def signerEdgesAsProtocol : List AEv := signerEdges.map (·.2.1) ++ [.ret]
-
-def readerEdgesAsProtocol : List AEv :=
-  match (readerEdges.map (·.2.1) : List AEv) with
-  | [.rlock, r, .runlock] => [.rlock, .deferRUnlock, r, .ret]
-  | l => l
-
-def loaderEdgesAsProtocol : List AEv :=
-  match ((loaderEdges.map (·.2.1)).filter (fun e => e ≠ .ret ∧ e ≠ .callLoad) : List AEv) with
-  | [.lock, a, b, c, .unlock] => [.lock, .deferUnlock, a, b, c, .ret]
-  | l => l
-
-/-! ## the claim program of `Sign` -/
-
-/-- the value written into a system claim, read off its source text (local definitions resolved by the extractor) -/
-def abstractSrc (v : String) : Option SysSrc :=
-  if v = "((time.Now().UTC()).Add(ttl)).Unix()" then some .exp
-  else if v = "(time.Now().UTC()).Unix()" then some .iat
-  else if v = "s.iss" then some .iss
-  else if v = "sub" then some .sub
-  else if v = "uuid.New()" then some .jti
-  else none
-
-inductive RawOp where
-  | init | op (o : ClaimOp) | use | unknown (kind key val : String)
-deriving DecidableEq, Repr
-
-def abstractClaimOp (o : String × String × String) : RawOp :=
-  if o = ("init", "", "make(map[string]any)") then .init
-  else if o = ("call", "maps.Merge", "customClaims, claims") then .op .merge
-  else if o = ("use", "", "jwt.Signed(signer).Claims(claims)") then .use
-  else if o.1 = "set" then
-    match abstractSrc o.2.2 with
-    | some src =>
-      -- `iat` and `nbf` are written from the same clock reading
-      if o.2.1 = "nbf" ∧ src = .iat then .op (.set "nbf" .nbf) else .op (.set o.2.1 src)
-    | none => .unknown o.1 o.2.1 o.2.2
-  else .unknown o.1 o.2.1 o.2.2
-
-/-- the program the model runs, framed by the creation of the empty map and the hand-over to the JWT builder -/
-def expectedClaimOps : List RawOp := [.init] ++ signProgram.map .op ++ [.use]
-
-def expectedSignParams : List String := ["sub", "ttl", "customClaims"]
-
-/-- header and signing key come from the copies taken under the read lock -/
-def expectedSignerSetup : List (String × String) :=
-  [("SigningKey.Algorithm", "jose.SignatureAlgorithm(jwk.Algorithm)"), ("SigningKey.Key", "key"),
-   ("WithHeader \"alg\"", "jwk.Algorithm"), ("WithHeader \"kid\"", "jwk.KeyID"), ("WithType", "\"JWT\"")]
-
-def copiesOf (assignments : List (String × String)) : List (String × String) :=
-  assignments.filter (fun a => a.1 = "jwk" ∨ a.1 = "key")
-
-def expectedCopies : List (String × String) := [("jwk", "s.jwk"), ("key", "s.key")]
-
-/-- `load`: how the active entry is chosen, what is checked and how the published list is built -/
-def selectionOf (assignments : List (String × String)) : List (String × String) :=
-  assignments.filter (fun a => a.1 = "kse, err" ∨ a.1 = "kse" ∨ a.1 = "err" ∨ a.1 = "keys" ∨ a.1 = "keys[idx]" ∨
-    a.1 = "range idx, entry" ∨ a.1 = "range _, entry" ∨ a.1 = "s.jwk" ∨ a.1 = "s.key" ∨ a.1 = "s.pubKeys")
-
-def expectedSelection : List (String × String) :=
-  [("kse, err", "keystore.SelectKey(ks, s.keyID)"),
-   ("range _, entry", "ks.Entries()"), ("err", "entry.CheckJOSESupport()"),
-   ("err", "pkix.ValidateCertificate(kse.CertChain[0], opts...)"),
-   ("keys", "make([]jose.JSONWebKey, len(ks.Entries()))"), ("range idx, entry", "ks.Entries()"),
-   ("keys[idx]", "entry.JWK()"), ("s.jwk", "kse.JWK()"), ("s.key", "kse.PrivateKey"), ("s.pubKeys", "keys")]
-
-/-- `keystore.SelectKey` is `selectEntry`: `GetKey` for a non-empty id, else an error for no entries, else the first -/
-def expectedSelectKey : List String :=
-  ["if len(id) != 0 {", "return ks.GetKey(id)", "}", "entries = ks.Entries()", "if len(entries) == 0 {",
-   "return nil, ErrNoKeys", "}", "return entries[0], nil"]
-
-/-- `Entry.CheckJOSESupport` accepts exactly the sizes the algorithm tables know (`Entry.supported`) -/
-def expectedJoseSupport : List (String × List Nat) :=
-  [("AlgRSA", rsaTable.map (·.1)), ("AlgECDSA", ecdsaTable.map (·.1))]
-
-/-! ## `Entry.JWK` and the algorithm tables -/
-
-def expectedJwkLiteral : List (String × String) :=
-  [("Algorithm", "string(e.JOSEAlgorithm())"), ("Certificates", "e.CertChain"), ("Key", "e.PrivateKey.Public()"),
-   ("KeyID", "e.KeyID"), ("Use", "\"sig\"")]
-
-def expectedJoseAlgorithm : List (String × String) :=
-  [("switch", "e.Alg"), ("AlgRSA", "return getRSAAlgorithm(e.KeySize)"),
-   ("AlgECDSA", "return getECDSAAlgorithm(e.KeySize)"), ("default", "panic")]
 
 end Heimdall.SignerProtocol
